@@ -283,14 +283,14 @@ Qed.
 (** batch add: only what the subset theorem needs *)
 Lemma len_add_batch cfg ps s : length (ps_add_batch cfg ps s) = length s.
 Proof.
-  unfold ps_add_batch. generalize (filter (fun p => negb (ps_exists cfg p s)) ps) as l.
+  unfold ps_add_batch. generalize (batch_new cfg s ps []) as l.
   intros l. revert s. induction l as [|x t IH]; intros s; cbn [fold_left]; auto.
   rewrite IH. apply upd_length.
 Qed.
 
 Lemma mem_add_batch_keep cfg ps s q : ps_mem cfg q s -> ps_mem cfg q (ps_add_batch cfg ps s).
 Proof.
-  unfold ps_add_batch. generalize (filter (fun p => negb (ps_exists cfg p s)) ps) as l.
+  unfold ps_add_batch. generalize (batch_new cfg s ps []) as l.
   intros l. revert s. induction l as [|x t IH]; intros s H; cbn [fold_left]; auto.
   apply IH. destruct (Nat.lt_ge_cases (pbin cfg x) (length s)) as [Hlt|Hge].
   - rewrite mem_upd_iff by auto. destruct (Nat.eq_dec _ _) as [E|E]; auto.
@@ -514,7 +514,7 @@ Proof.
   - unfold live_step; rewrite drop_unfold, drop_nil. auto.
   - unfold live_step; rewrite drop_unfold, drop_nil. auto.
   - unfold live_step; rewrite drop_unfold, drop_nil. auto.
-  - unfold reach. destruct pub; unfold live_step; rewrite drop_unfold, drop_nil; auto.
+  - unfold reach. unfold live_step; rewrite drop_unfold, drop_nil; auto.
   - unfold live_step; rewrite drop_unfold, drop_nil. auto.
 Qed.
 
@@ -699,7 +699,7 @@ Proof.
     + now rewrite len_add.
     + intros q H. apply mem_add_keep; auto.
   - cbn [fst]. destruct HK as [Hl Hs]. split; auto.
-  - cbn [fst]. unfold reach. destruct HK as [Hl Hs]. destruct pub; split; auto.
+  - cbn [fst]. unfold reach. destruct HK as [Hl Hs]. split; auto.
   - cbn [fst]. destruct HK as [Hl Hs]. split; auto.
 Qed.
 
@@ -893,7 +893,7 @@ Proof.
   - reflexivity.
   - cbn [fst known]. apply len_add.
   - reflexivity.
-  - unfold reach. now destruct pub.
+  - reflexivity.
   - reflexivity.
 Qed.
 
